@@ -58,6 +58,8 @@ fn send<T: Send + Sync + 'static>(tx: &Sender<T>, item: T) -> Result<()> {
     // See comment in ChannelSlot::new() about the bound size of the control
     // channel. If we're sending to a consumer channel, they are not bounded
     // and will not return Full.
+    #[cfg(amiquip_verif)]
+    crate::verif::point(crate::verif::Point::IoToClient(crate::verif::ToClient::Send));
     match tx.try_send(item) {
         Ok(()) => Ok(()),
         Err(TrySendError::Full(_)) => {
@@ -74,6 +76,8 @@ fn send<T: Send + Sync + 'static>(tx: &Sender<T>, item: T) -> Result<()> {
 // When we set up a return listener, it's just a crossbeam channel. If it gets dropped,
 // we don't want to error; just start discarding returned messages.
 fn try_send_return(slot: &mut ChannelSlot, return_: Return) {
+    #[cfg(amiquip_verif)]
+    crate::verif::point(crate::verif::Point::IoToClient(crate::verif::ToClient::Return));
     let return_ = if let Some(tx) = &slot.return_handler {
         match tx.try_send(return_) {
             Ok(()) => return,
@@ -91,6 +95,8 @@ fn try_send_return(slot: &mut ChannelSlot, return_: Return) {
 // When we set up a pub confirm listener, it's just a crossbeam channel. If it gets dropped,
 // we don't want to error; just start discarding acks/nacks
 fn try_send_confirm(slot: &mut ChannelSlot, confirm: Confirm) {
+    #[cfg(amiquip_verif)]
+    crate::verif::point(crate::verif::Point::IoToClient(crate::verif::ToClient::Confirm));
     let confirm = if let Some(tx) = &slot.pub_confirm_handler {
         match tx.try_send(confirm) {
             Ok(()) => return,
@@ -108,6 +114,8 @@ fn try_send_confirm(slot: &mut ChannelSlot, confirm: Confirm) {
 // When we set up a blocked connection listener, it's just a crossbeam channel. If it gets
 // dropped, we don't want to error; just start discarding blocked notifications.
 fn try_send_blocked(slot: &mut Channel0Slot, note: ConnectionBlockedNotification) {
+    #[cfg(amiquip_verif)]
+    crate::verif::point(crate::verif::Point::IoToClient(crate::verif::ToClient::Blocked));
     if let Some(tx) = &slot.blocked_tx {
         match tx.try_send(note) {
             Ok(()) => (),
@@ -139,6 +147,8 @@ impl ConnectionState {
     }
 
     pub(super) fn process(&mut self, inner: &mut Inner, frame: AMQPFrame) -> Result<()> {
+        #[cfg(amiquip_verif)]
+        crate::verif::point(crate::verif::Point::IoFrame(&frame));
         // bail out if we shouldn't be getting frames
         let ch0_slot = match self {
             ConnectionState::Steady(ch0_slot) => ch0_slot,
